@@ -8,6 +8,7 @@ from hypothesis import strategies as st
 
 GRID = [0.25, 0.5, 0.75, 1.0, 1.5, 2.0, 3.0]
 GRID_SHORT = [0.25, 0.5, 0.5, 1.0, 1.0, 1.5]
+GRID_LONG = [2.0, 3.0, 4.5, 6.0, 8.0]
 DEC_GRID = [0.1, 0.2, 0.3, 0.5, 0.7, 1.1, 1.3]
 DEC_SHORT = [0.1, 0.2, 0.3, 0.3, 0.5, 0.7]
 
@@ -22,7 +23,8 @@ ALL_FEATURES = [
 class Profile(object):
     def __init__(self, allowed, weights=None, required=(), numeric="grid", max_nodes=3, max_classes=3,
                  plans=("max_time",), horizon=(4.0, 16.0), budget=600, max_c=3, caps=(0, 1, 2, 3),
-                 resumptions=(1, 3), load="mixed", excluded=(), seq_len=5, require_any=(), stay=0.0, finite_arrivals=0.0):
+                 resumptions=(1, 3), load="mixed", excluded=(), seq_len=5, require_any=(), stay=0.0, finite_arrivals=0.0,
+                 router_kinds=None, routing_kinds=None, min_dests=1, long_service=0.0):
         self.allowed = set(allowed)
         self.weights = dict(weights or {})
         self.required = set(required)
@@ -41,6 +43,10 @@ class Profile(object):
         self.seq_len = seq_len
         self.stay = stay                    # probability that a transition-matrix row has no exit share
         self.finite_arrivals = finite_arrivals      # probability that an arrival stream is finite (Sequential ending in inf)
+        self.router_kinds = router_kinds            # override of the per-node router kinds of a NetworkRouting
+        self.routing_kinds = routing_kinds          # override of the per-class routing kinds
+        self.min_dests = min_dests                  # least number of destinations of a JSQ / LB router
+        self.long_service = long_service            # probability that a (grid) service distribution is drawn from the long-duration grid
 
     def w(self, f, default=0.3):
         if f not in self.allowed:
@@ -97,6 +103,8 @@ def dist_grid(draw, prof, role):
     g = None
     if role == "arrival" and prof.load == "heavy":
         g = DEC_SHORT if prof.numeric == "decgrid" else GRID_SHORT
+    if role == "service" and prof.long_service and _flag(draw, prof.long_service):
+        g = GRID_LONG
     kind = draw(st.sampled_from(["det", "seq", "seq", "pmf", "emp"] + (["tdep", "sdep"] if ("custom_dists" in prof.allowed and role == "service") else [])
                                 + (["tdep"] if ("custom_dists" in prof.allowed and role == "arrival") else [])))
     n = draw(st.integers(2, prof.seq_len))
@@ -243,6 +251,8 @@ def node_router(draw, prof, n, i, self_loops, jockey):
     kinds = ["prob", "prob", "leave", "direct"]
     if prof.w("routing_objects") > 0:
         kinds += ["jsq", "lb", "cycle", "jsq"]
+    if prof.router_kinds:
+        kinds = list(prof.router_kinds)
     k = draw(st.sampled_from(kinds))
     if k == "leave":
         r = {"r": "leave"}
@@ -256,7 +266,8 @@ def node_router(draw, prof, n, i, self_loops, jockey):
             probs[i - 1] = 0.0
         r = {"r": "prob", "dests": dests, "probs": probs}
     elif k in ("jsq", "lb"):
-        r = {"r": k, "dests": _dests(draw, n, i, self_loops), "tie": draw(st.sampled_from(["random", "order"]))}
+        r = {"r": k, "dests": _dests(draw, n, i, self_loops, min_size=min(prof.min_dests, n if self_loops else max(n - 1, 1))),
+             "tie": draw(st.sampled_from(["random", "order"]))}
     else:
         cyc = draw(st.lists(st.sampled_from([j for j in range(1, n + 1) if self_loops or j != i] + [-1]), min_size=1, max_size=4))
         r = {"r": "cycle", "cycle": cyc}
@@ -274,6 +285,8 @@ def routing_kinds(prof, on, jockey):
         kinds += ["process", "process"]
     if on.get("flexible_routing"):
         kinds += ["flexible", "flexible"]
+    if prof.routing_kinds:
+        kinds = list(prof.routing_kinds)
     if jockey:
         kinds = ["network"]
     return kinds
